@@ -9,10 +9,21 @@ type nat =
 | O
 | S of nat
 
+(** val option_map : ('a1 -> 'a2) -> 'a1 option -> 'a2 option **)
+
+let option_map f = function
+| Some a -> Some (f a)
+| None -> None
+
 (** val fst : ('a1 * 'a2) -> 'a1 **)
 
 let fst = function
 | (x, _) -> x
+
+(** val snd : ('a1 * 'a2) -> 'a2 **)
+
+let snd = function
+| (_, y) -> y
 
 (** val app : 'a1 list -> 'a1 list -> 'a1 list **)
 
@@ -21,16 +32,21 @@ let rec app l m =
   | [] -> m
   | a :: l1 -> a :: (app l1 m)
 
+type comparison =
+| Eq
+| Lt
+| Gt
+
 (** val pred : nat -> nat **)
 
-let pred n = match n with
-| O -> n
+let pred n0 = match n0 with
+| O -> n0
 | S u -> u
 
 module Coq__1 = struct
  (** val add : nat -> nat -> nat **)
- let rec add n m =
-   match n with
+ let rec add n0 m =
+   match n0 with
    | O -> m
    | S p -> S (add p m)
 end
@@ -45,8 +61,8 @@ module Nat =
  struct
   (** val eqb : nat -> nat -> bool **)
 
-  let rec eqb n m =
-    match n with
+  let rec eqb n0 m =
+    match n0 with
     | O -> (match m with
             | O -> true
             | S _ -> false)
@@ -56,14 +72,14 @@ module Nat =
 
   (** val eq_dec : nat -> nat -> bool **)
 
-  let rec eq_dec n m =
-    match n with
+  let rec eq_dec n0 m =
+    match n0 with
     | O -> (match m with
             | O -> true
             | S _ -> false)
-    | S n0 -> (match m with
+    | S n1 -> (match m with
                | O -> false
-               | S n1 -> eq_dec n0 n1)
+               | S n2 -> eq_dec n1 n2)
  end
 
 (** val remove : ('a1 -> 'a1 -> bool) -> 'a1 -> 'a1 list -> 'a1 list **)
@@ -87,17 +103,21 @@ let rec existsb f = function
 
 (** val firstn : nat -> 'a1 list -> 'a1 list **)
 
-let rec firstn n l =
-  match n with
+let rec firstn n0 l =
+  match n0 with
   | O -> []
-  | S n0 -> (match l with
+  | S n1 -> (match l with
              | [] -> []
-             | a :: l0 -> a :: (firstn n0 l0))
+             | a :: l0 -> a :: (firstn n1 l0))
 
 type positive =
 | XI of positive
 | XO of positive
 | XH
+
+type n =
+| N0
+| Npos of positive
 
 type z =
 | Z0
@@ -105,6 +125,14 @@ type z =
 | Zneg of positive
 
 module Pos =
+ struct
+  type mask =
+  | IsNul
+  | IsPos of positive
+  | IsNeg
+ end
+
+module Coq_Pos =
  struct
   (** val succ : positive -> positive **)
 
@@ -159,6 +187,65 @@ module Pos =
   | XO p -> XI (pred_double p)
   | XH -> XH
 
+  type mask = Pos.mask =
+  | IsNul
+  | IsPos of positive
+  | IsNeg
+
+  (** val succ_double_mask : mask -> mask **)
+
+  let succ_double_mask = function
+  | IsNul -> IsPos XH
+  | IsPos p -> IsPos (XI p)
+  | IsNeg -> IsNeg
+
+  (** val double_mask : mask -> mask **)
+
+  let double_mask = function
+  | IsPos p -> IsPos (XO p)
+  | x0 -> x0
+
+  (** val double_pred_mask : positive -> mask **)
+
+  let double_pred_mask = function
+  | XI p -> IsPos (XO (XO p))
+  | XO p -> IsPos (XO (pred_double p))
+  | XH -> IsNul
+
+  (** val sub_mask : positive -> positive -> mask **)
+
+  let rec sub_mask x y =
+    match x with
+    | XI p ->
+      (match y with
+       | XI q0 -> double_mask (sub_mask p q0)
+       | XO q0 -> succ_double_mask (sub_mask p q0)
+       | XH -> IsPos (XO p))
+    | XO p ->
+      (match y with
+       | XI q0 -> succ_double_mask (sub_mask_carry p q0)
+       | XO q0 -> double_mask (sub_mask p q0)
+       | XH -> IsPos (pred_double p))
+    | XH -> (match y with
+             | XH -> IsNul
+             | _ -> IsNeg)
+
+  (** val sub_mask_carry : positive -> positive -> mask **)
+
+  and sub_mask_carry x y =
+    match x with
+    | XI p ->
+      (match y with
+       | XI q0 -> succ_double_mask (sub_mask_carry p q0)
+       | XO q0 -> double_mask (sub_mask p q0)
+       | XH -> IsPos (pred_double p))
+    | XO p ->
+      (match y with
+       | XI q0 -> double_mask (sub_mask_carry p q0)
+       | XO q0 -> succ_double_mask (sub_mask_carry p q0)
+       | XH -> double_pred_mask p)
+    | XH -> IsNeg
+
   (** val mul : positive -> positive -> positive **)
 
   let rec mul x y =
@@ -166,6 +253,29 @@ module Pos =
     | XI p -> add y (XO (mul p y))
     | XO p -> XO (mul p y)
     | XH -> y
+
+  (** val compare_cont : comparison -> positive -> positive -> comparison **)
+
+  let rec compare_cont r0 x y =
+    match x with
+    | XI p ->
+      (match y with
+       | XI q0 -> compare_cont r0 p q0
+       | XO q0 -> compare_cont Gt p q0
+       | XH -> Gt)
+    | XO p ->
+      (match y with
+       | XI q0 -> compare_cont Lt p q0
+       | XO q0 -> compare_cont r0 p q0
+       | XH -> Gt)
+    | XH -> (match y with
+             | XH -> r0
+             | _ -> Lt)
+
+  (** val compare : positive -> positive -> comparison **)
+
+  let compare =
+    compare_cont Eq
 
   (** val eqb : positive -> positive -> bool **)
 
@@ -201,6 +311,56 @@ module Pos =
   | S x -> succ (of_succ_nat x)
  end
 
+module N =
+ struct
+  (** val add : n -> n -> n **)
+
+  let add n0 m =
+    match n0 with
+    | N0 -> m
+    | Npos p -> (match m with
+                 | N0 -> n0
+                 | Npos q0 -> Npos (Coq_Pos.add p q0))
+
+  (** val sub : n -> n -> n **)
+
+  let sub n0 m =
+    match n0 with
+    | N0 -> N0
+    | Npos n' ->
+      (match m with
+       | N0 -> n0
+       | Npos m' ->
+         (match Coq_Pos.sub_mask n' m' with
+          | Coq_Pos.IsPos p -> Npos p
+          | _ -> N0))
+
+  (** val compare : n -> n -> comparison **)
+
+  let compare n0 m =
+    match n0 with
+    | N0 -> (match m with
+             | N0 -> Eq
+             | Npos _ -> Lt)
+    | Npos n' -> (match m with
+                  | N0 -> Gt
+                  | Npos m' -> Coq_Pos.compare n' m')
+
+  (** val leb : n -> n -> bool **)
+
+  let leb x y =
+    match compare x y with
+    | Gt -> false
+    | _ -> true
+
+  (** val ltb : n -> n -> bool **)
+
+  let ltb x y =
+    match compare x y with
+    | Lt -> true
+    | _ -> false
+ end
+
 module Z =
  struct
   (** val double : z -> z **)
@@ -215,13 +375,13 @@ module Z =
   let succ_double = function
   | Z0 -> Zpos XH
   | Zpos p -> Zpos (XI p)
-  | Zneg p -> Zneg (Pos.pred_double p)
+  | Zneg p -> Zneg (Coq_Pos.pred_double p)
 
   (** val pred_double : z -> z **)
 
   let pred_double = function
   | Z0 -> Zneg XH
-  | Zpos p -> Zpos (Pos.pred_double p)
+  | Zpos p -> Zpos (Coq_Pos.pred_double p)
   | Zneg p -> Zneg (XI p)
 
   (** val pos_sub : positive -> positive -> z **)
@@ -237,11 +397,11 @@ module Z =
       (match y with
        | XI q0 -> pred_double (pos_sub p q0)
        | XO q0 -> double (pos_sub p q0)
-       | XH -> Zpos (Pos.pred_double p))
+       | XH -> Zpos (Coq_Pos.pred_double p))
     | XH ->
       (match y with
        | XI q0 -> Zneg (XO q0)
-       | XO q0 -> Zneg (Pos.pred_double q0)
+       | XO q0 -> Zneg (Coq_Pos.pred_double q0)
        | XH -> Z0)
 
   (** val add : z -> z -> z **)
@@ -252,13 +412,13 @@ module Z =
     | Zpos x' ->
       (match y with
        | Z0 -> x
-       | Zpos y' -> Zpos (Pos.add x' y')
+       | Zpos y' -> Zpos (Coq_Pos.add x' y')
        | Zneg y' -> pos_sub x' y')
     | Zneg x' ->
       (match y with
        | Z0 -> x
        | Zpos y' -> pos_sub y' x'
-       | Zneg y' -> Zneg (Pos.add x' y'))
+       | Zneg y' -> Zneg (Coq_Pos.add x' y'))
 
   (** val mul : z -> z -> z **)
 
@@ -268,13 +428,13 @@ module Z =
     | Zpos x' ->
       (match y with
        | Z0 -> Z0
-       | Zpos y' -> Zpos (Pos.mul x' y')
-       | Zneg y' -> Zneg (Pos.mul x' y'))
+       | Zpos y' -> Zpos (Coq_Pos.mul x' y')
+       | Zneg y' -> Zneg (Coq_Pos.mul x' y'))
     | Zneg x' ->
       (match y with
        | Z0 -> Z0
-       | Zpos y' -> Zneg (Pos.mul x' y')
-       | Zneg y' -> Zpos (Pos.mul x' y'))
+       | Zpos y' -> Zneg (Coq_Pos.mul x' y')
+       | Zneg y' -> Zpos (Coq_Pos.mul x' y'))
 
   (** val eqb : z -> z -> bool **)
 
@@ -284,23 +444,29 @@ module Z =
              | Z0 -> true
              | _ -> false)
     | Zpos p -> (match y with
-                 | Zpos q0 -> Pos.eqb p q0
+                 | Zpos q0 -> Coq_Pos.eqb p q0
                  | _ -> false)
     | Zneg p -> (match y with
-                 | Zneg q0 -> Pos.eqb p q0
+                 | Zneg q0 -> Coq_Pos.eqb p q0
                  | _ -> false)
 
   (** val to_nat : z -> nat **)
 
   let to_nat = function
-  | Zpos p -> Pos.to_nat p
+  | Zpos p -> Coq_Pos.to_nat p
   | _ -> O
+
+  (** val to_N : z -> n **)
+
+  let to_N = function
+  | Zpos p -> Npos p
+  | _ -> N0
 
   (** val of_nat : nat -> z **)
 
   let of_nat = function
   | O -> Z0
-  | S n0 -> Zpos (Pos.of_succ_nat n0)
+  | S n1 -> Zpos (Coq_Pos.of_succ_nat n1)
  end
 
 type val0 = nat * nat
@@ -380,9 +546,9 @@ let upd f i v j =
     (nat -> blk) -> val0 list -> val0 list -> val0 list -> nat list -> bool
     -> st **)
 
-let mk q' sl c p n r0 s' b se rv dr li fr =
-  { q = q'; slot = sl; chans = c; pdrop = p; nextb = n; r = r0; sd = s'; bk =
-    b; sent = se; rcvd = rv; drpd = dr; live = li; freed = fr }
+let mk q' sl c p n0 r0 s' b se rv dr li fr =
+  { q = q'; slot = sl; chans = c; pdrop = p; nextb = n0; r = r0; sd = s';
+    bk = b; sent = se; rcvd = rv; drpd = dr; live = li; freed = fr }
 
 (** val fresh : blk **)
 
@@ -538,8 +704,8 @@ let s_ready y =
 
 (** val is0 : nat -> bool **)
 
-let is0 n =
-  Nat.eqb n O
+let is0 n0 =
+  Nat.eqb n0 O
 
 (** val step : st -> action -> st option **)
 
@@ -747,10 +913,10 @@ let step s ac =
       | SSub ->
         (match s.chans with
          | O -> None
-         | S n ->
+         | S n0 ->
            Some
-             (mk s.q s.slot n s.pdrop s.nextb x
-               (upd s.sd a (s_st y (if is0 n then STake else SIdle) Dead))
+             (mk s.q s.slot n0 s.pdrop s.nextb x
+               (upd s.sd a (s_st y (if is0 n0 then STake else SIdle) Dead))
                s.bk s.sent s.rcvd s.drpd (rm a s.live) s.freed)))
    | Free ->
      if (&&) ((&&) ((&&) (is0 s.chans) (negb x.ralive)) (negb s.freed))
@@ -792,11 +958,6 @@ let aux0 =
 
 type ast = st * aux
 
-(** val a_init : ast **)
-
-let a_init =
-  (init, aux0)
-
 (** val set_ract : aux -> nat -> aux **)
 
 let set_ract x a =
@@ -829,9 +990,9 @@ let set_qt x o =
 
 (** val set_nb : aux -> nat -> aux **)
 
-let set_nb x n =
+let set_nb x n0 =
   { started = x.started; ract = x.ract; hof = x.hof; ph = x.ph; opk = x.opk;
-    qt = x.qt; qh = x.qh; nb = n }
+    qt = x.qt; qh = x.qh; nb = n0 }
 
 (** val set_qh : aux -> z -> aux **)
 
@@ -945,14 +1106,6 @@ let bind_obj m b o =
 
 type plan = { acts : action list; post : (st -> bool); nxt : (st -> aux) }
 
-(** val steps : st -> action list -> st option **)
-
-let rec steps s = function
-| [] -> Some s
-| a :: l' -> (match step s a with
-              | Some s' -> steps s' l'
-              | None -> None)
-
 (** val guard : bool -> plan option -> plan option **)
 
 let guard b p =
@@ -994,6 +1147,17 @@ let resume s =
   match (s.bk s.r.rb).reason with
   | Some _ -> RStep :: []
   | None -> (Fire RT) :: (RStep :: [])
+
+(** val cancelled : st -> aux -> nat -> plan option **)
+
+let cancelled s x a =
+  guard
+    ((&&) ((&&) ((&&) (is_r x a) (Nat.eqb x.ph (S (S O)))) (at_r s RWait))
+      s.r.rco) (Some { acts = ((Fire RC) :: (RStep :: [])); post = (fun s' ->
+    (&&) (at_r s' RIdle) (match s'.r.rres with
+                          | RCancel -> true
+                          | _ -> false)); nxt = (fun _ ->
+    set_ph (set_ract x O) O) })
 
 (** val plan_ev : st -> aux -> z list -> plan option **)
 
@@ -1063,13 +1227,18 @@ let plan_ev s x = function
                                   ((&&) ((&&) ins (at_s s h STake))
                                     (eqb (negb (isnone s.slot)) (zb v)))
                                   (ok ((SStep h) :: []) x))
-                           | XO _ -> None
+                           | XO p3 -> (match p3 with
+                                       | XH -> skip x
+                                       | _ -> None)
                            | XH ->
-                             guard
-                               ((&&)
-                                 ((&&) ((&&) (is_r x a) (Nat.eqb x.ph O))
-                                   (at_r s RIdle)) (res_is s.r.rres o v))
-                               (skip (set_ract x O)))
+                             if Z.eqb o (Zpos (XI (XO XH)))
+                             then cancelled s x a
+                             else guard
+                                    ((&&)
+                                      ((&&)
+                                        ((&&) (is_r x a) (Nat.eqb x.ph O))
+                                        (at_r s RIdle)) (res_is s.r.rres o v))
+                                    (skip (set_ract x O)))
                         | XH ->
                           guard
                             ((&&) ((&&) ins (Nat.eqb h (Z.to_nat o)))
@@ -1091,16 +1260,19 @@ let plan_ev s x = function
                                   (ok ((SStep h) :: []) x)
                               | _ -> None)
                            | XH ->
-                             guard ((&&) (is_r x a) (Nat.eqb x.ph O))
-                               (if at_r s RDeadline
-                                then guard (Z.eqb o (Zpos (XO (XO XH))))
-                                       (Some { acts = ((RDl true) :: []);
-                                       post = (fun _ -> true); nxt =
-                                       (fun _ -> set_ract x O) })
-                                else guard
-                                       ((&&) (at_r s RIdle)
-                                         (res_is s.r.rres o v))
-                                       (skip (set_ract x O))))
+                             if Z.eqb o (Zpos (XI (XO XH)))
+                             then cancelled s x a
+                             else guard ((&&) (is_r x a) (Nat.eqb x.ph O))
+                                    (if at_r s RDeadline
+                                     then guard (Z.eqb o (Zpos (XO (XO XH))))
+                                            (Some { acts = ((RDl
+                                            true) :: []); post = (fun _ ->
+                                            true); nxt = (fun _ ->
+                                            set_ract x O) })
+                                     else guard
+                                            ((&&) (at_r s RIdle)
+                                              (res_is s.r.rres o v))
+                                            (skip (set_ract x O))))
                         | XO p2 ->
                           (match p2 with
                            | XI p3 ->
@@ -1419,92 +1591,6 @@ let plan_ev s x = function
                | _ -> None)
             | _ :: _ -> None))))
 
-(** val accept_ev : ast -> z list -> ast option **)
-
-let accept_ev sx e =
-  let (s, x) = sx in
-  if x.started
-  then (match plan_ev s x e with
-        | Some p ->
-          (match steps s p.acts with
-           | Some s' -> if p.post s' then Some (s', (p.nxt s')) else None
-           | None -> None)
-        | None -> None)
-  else (match e with
-        | [] -> Some sx
-        | z0 :: l ->
-          (match z0 with
-           | Zpos p ->
-             (match p with
-              | XH ->
-                (match l with
-                 | [] -> Some sx
-                 | _ :: l0 ->
-                   (match l0 with
-                    | [] -> Some sx
-                    | _ :: l1 ->
-                      (match l1 with
-                       | [] -> Some sx
-                       | _ :: l2 ->
-                         (match l2 with
-                          | [] ->
-                            Some (s, { started = true; ract = x.ract; hof =
-                              x.hof; ph = x.ph; opk = x.opk; qt = x.qt; qh =
-                              x.qh; nb = x.nb })
-                          | _ :: _ -> Some sx))))
-              | _ -> Some sx)
-           | _ -> Some sx))
-
-(** val branch : ast -> z list -> ast list **)
-
-let branch sx e =
-  let (s, x) = sx in
-  (match e with
-   | [] -> sx :: []
-   | code :: l ->
-     (match l with
-      | [] -> sx :: []
-      | _ :: l0 ->
-        (match l0 with
-         | [] -> sx :: []
-         | _ :: l1 ->
-           (match l1 with
-            | [] -> sx :: []
-            | v :: l2 ->
-              (match l2 with
-               | [] ->
-                 if (&&)
-                      ((&&)
-                        ((&&)
-                          ((||) (Z.eqb code (Zpos (XI (XO (XI (XO XH))))))
-                            (Z.eqb code (Zpos (XI (XI (XO (XI XH)))))))
-                          (zb v)) (Nat.eqb x.nb (S O))) (at_r s RStore)
-                 then (match step s RStep with
-                       | Some s' -> sx :: ((s', (set_nb x (S (S O)))) :: [])
-                       | None -> sx :: [])
-                 else sx :: []
-               | _ :: _ -> sx :: [])))))
-
-(** val accept1 : z list -> ast -> ast list **)
-
-let accept1 e sx =
-  match accept_ev sx e with
-  | Some sx' -> sx' :: []
-  | None -> []
-
-(** val accept_evm : ast list -> z list -> ast list option **)
-
-let accept_evm l e =
-  match firstn (S (S (S (S (S (S (S (S O))))))))
-          (flat_map (accept1 e) (flat_map (fun sx -> branch sx e) l)) with
-  | [] -> None
-  | a :: l0 -> Some (a :: l0)
-
-(** val m_initm : ast list **)
-
-let m_initm =
-  a_init :: []
-
 (** val vals_eqb : val0 list -> val0 list -> bool **)
 
 let rec vals_eqb l1 l2 =
@@ -1525,22 +1611,260 @@ let rec vals_eqb l1 l2 =
 let monitors_ok sx =
   let s = fst sx in vals_eqb s.sent (app s.rcvd (app s.drpd s.q))
 
-(** val monitors_okm : ast list -> bool **)
+type tst = { base : st; now : n; dur : n; t0 : n; dl : n; rem : n; pdl : n }
 
-let monitors_okm l =
-  existsb monitors_ok l
+type tact =
+| Tick of n
+| TRecvTimeout of bool * n
+| A of action
 
-(** val m_init : ast list **)
+(** val with_base : tst -> st -> tst **)
+
+let with_base ts s =
+  { base = s; now = ts.now; dur = ts.dur; t0 = ts.t0; dl = ts.dl; rem =
+    ts.rem; pdl = ts.pdl }
+
+(** val is_first : rcvr -> bool **)
+
+let is_first x =
+  match x.rp with
+  | RStore ->
+    (match x.rc with
+     | CFirst -> (match x.rapi with
+                  | ATimed -> true
+                  | _ -> false)
+     | _ -> false)
+  | _ -> false
+
+(** val at_park : rcvr -> bool **)
+
+let at_park x =
+  match x.rp with
+  | RPark -> true
+  | _ -> false
+
+(** val at_wait : rcvr -> bool **)
+
+let at_wait x =
+  match x.rp with
+  | RWait -> true
+  | _ -> false
+
+(** val tstep : tst -> tact -> tst option **)
+
+let tstep ts ta =
+  let s = ts.base in
+  (match ta with
+   | Tick d ->
+     Some { base = s; now = (N.add ts.now d); dur = ts.dur; t0 = ts.t0; dl =
+       ts.dl; rem = ts.rem; pdl = ts.pdl }
+   | TRecvTimeout (co, d) ->
+     (match step s (RecvTimeout co) with
+      | Some s' ->
+        Some { base = s'; now = ts.now; dur = d; t0 = ts.now; dl = N0; rem =
+          d; pdl = N0 }
+      | None -> None)
+   | A a ->
+     (match a with
+      | RecvTimeout _ -> None
+      | RStep ->
+        (match step s RStep with
+         | Some s' ->
+           Some { base = s'; now = ts.now; dur = ts.dur; t0 = ts.t0; dl =
+             (if is_first s.r then N.add ts.now ts.dur else ts.dl); rem =
+             ts.rem; pdl =
+             (if (&&) (at_park s.r) (at_wait s'.r)
+              then N.add ts.now ts.rem
+              else ts.pdl) }
+         | None -> None)
+      | RDl e ->
+        if eqb e (N.leb ts.dl ts.now)
+        then (match step s (RDl e) with
+              | Some s' ->
+                Some { base = s'; now = ts.now; dur = ts.dur; t0 = ts.t0;
+                  dl = ts.dl; rem =
+                  (if e then ts.rem else N.sub ts.dl ts.now); pdl = ts.pdl }
+              | None -> None)
+        else None
+      | Fire r0 ->
+        (match r0 with
+         | RT ->
+           if N.leb ts.pdl ts.now
+           then option_map (with_base ts) (step s (Fire RT))
+           else None
+         | _ -> option_map (with_base ts) (step s a))
+      | _ -> option_map (with_base ts) (step s a)))
+
+(** val tinit : tst **)
+
+let tinit =
+  { base = init; now = N0; dur = N0; t0 = N0; dl = N0; rem = N0; pdl = N0 }
+
+type tast = tst * aux
+
+(** val ta_init : tast **)
+
+let ta_init =
+  (tinit, aux0)
+
+(** val tick_to : tst -> n -> tst option **)
+
+let tick_to ts t =
+  if N.leb ts.now t then tstep ts (Tick (N.sub t ts.now)) else None
+
+(** val tsteps : tst -> action list -> n -> tst option **)
+
+let rec tsteps ts l d =
+  match l with
+  | [] -> Some ts
+  | a :: l' ->
+    let ts1 =
+      match a with
+      | Fire r0 ->
+        (match r0 with
+         | RT -> if N.ltb ts.now ts.pdl then tick_to ts ts.pdl else Some ts
+         | _ -> Some ts)
+      | _ -> Some ts
+    in
+    let ta = match a with
+             | RecvTimeout co -> TRecvTimeout (co, d)
+             | _ -> A a in
+    (match ts1 with
+     | Some ts2 ->
+       (match tstep ts2 ta with
+        | Some ts' -> tsteps ts' l' d
+        | None -> None)
+     | None -> None)
+
+(** val taccept_ev : tast -> z list -> tast option **)
+
+let taccept_ev sx e =
+  let (ts, x) = sx in
+  if x.started
+  then (match e with
+        | [] -> None
+        | c :: l ->
+          (match l with
+           | [] -> None
+           | _ :: l0 ->
+             (match l0 with
+              | [] -> None
+              | o :: l1 ->
+                (match l1 with
+                 | [] -> None
+                 | v :: l2 ->
+                   (match l2 with
+                    | [] ->
+                      if Z.eqb c (Zpos (XI (XI (XO (XO XH)))))
+                      then (match tick_to ts (Z.to_N o) with
+                            | Some ts' -> Some (ts', x)
+                            | None -> None)
+                      else (match plan_ev ts.base x e with
+                            | Some p ->
+                              (match tsteps ts p.acts (Z.to_N v) with
+                               | Some ts' ->
+                                 if p.post ts'.base
+                                 then Some (ts', (p.nxt ts'.base))
+                                 else None
+                               | None -> None)
+                            | None -> None)
+                    | _ :: _ -> None)))))
+  else (match e with
+        | [] -> Some sx
+        | z0 :: l ->
+          (match z0 with
+           | Zpos p ->
+             (match p with
+              | XH ->
+                (match l with
+                 | [] -> Some sx
+                 | _ :: l0 ->
+                   (match l0 with
+                    | [] -> Some sx
+                    | _ :: l1 ->
+                      (match l1 with
+                       | [] -> Some sx
+                       | _ :: l2 ->
+                         (match l2 with
+                          | [] ->
+                            Some (ts, { started = true; ract = x.ract; hof =
+                              x.hof; ph = x.ph; opk = x.opk; qt = x.qt; qh =
+                              x.qh; nb = x.nb })
+                          | _ :: _ -> Some sx))))
+              | _ -> Some sx)
+           | _ -> Some sx))
+
+(** val tbranch : tast -> z list -> tast list **)
+
+let tbranch sx e =
+  let (ts, x) = sx in
+  (match e with
+   | [] -> sx :: []
+   | code :: l ->
+     (match l with
+      | [] -> sx :: []
+      | _ :: l0 ->
+        (match l0 with
+         | [] -> sx :: []
+         | _ :: l1 ->
+           (match l1 with
+            | [] -> sx :: []
+            | v :: l2 ->
+              (match l2 with
+               | [] ->
+                 if (&&)
+                      ((&&)
+                        ((&&)
+                          ((||) (Z.eqb code (Zpos (XI (XO (XI (XO XH))))))
+                            (Z.eqb code (Zpos (XI (XI (XO (XI XH)))))))
+                          (zb v)) (Nat.eqb x.nb (S O))) (at_r ts.base RStore)
+                 then (match tstep ts (A RStep) with
+                       | Some ts' -> sx :: ((ts', (set_nb x (S (S O)))) :: [])
+                       | None -> sx :: [])
+                 else sx :: []
+               | _ :: _ -> sx :: [])))))
+
+(** val taccept1 : z list -> tast -> tast list **)
+
+let taccept1 e sx =
+  match taccept_ev sx e with
+  | Some sx' -> sx' :: []
+  | None -> []
+
+(** val taccept_evm : tast list -> z list -> tast list option **)
+
+let taccept_evm l e =
+  match firstn (S (S (S (S (S (S (S (S O))))))))
+          (flat_map (taccept1 e) (flat_map (fun sx -> tbranch sx e) l)) with
+  | [] -> None
+  | t :: l0 -> Some (t :: l0)
+
+(** val tm_initm : tast list **)
+
+let tm_initm =
+  ta_init :: []
+
+(** val tmonitors_ok : tast -> bool **)
+
+let tmonitors_ok sx =
+  monitors_ok ((fst sx).base, (snd sx))
+
+(** val tmonitors_okm : tast list -> bool **)
+
+let tmonitors_okm l =
+  existsb tmonitors_ok l
+
+(** val m_init : tast list **)
 
 let m_init =
-  m_initm
+  tm_initm
 
-(** val m_accept : ast list -> z list -> ast list option **)
+(** val m_accept : tast list -> z list -> tast list option **)
 
 let m_accept =
-  accept_evm
+  taccept_evm
 
-(** val m_final : ast list -> bool **)
+(** val m_final : tast list -> bool **)
 
 let m_final =
-  monitors_okm
+  tmonitors_okm
